@@ -94,14 +94,14 @@ def gen_pair(r):
     for i in range(r.randint(1, 3)):
         t = r.choice(TYPES)
         b_attrs.append((pool.pop(), t, r.choice(VALUES[t]) if r.random() < 0.8 else None))
-    m_first = r.choice(("self", "cls"))
-    m_ps, m_txt = params(m_first, pool)
+    m_first = r.choice(("self", "cls", "static"))  # (a static method has no receiver to skip)
+    m_ps, m_txt = params(None if m_first == "static" else m_first, pool)
     g_ps, g_txt = params(None, pool)
     out = ["import os  # keep", "from typing import List, Literal, Optional, Union", "", "", "class B(object):",
            '    """B doc"""']
     for n, t, v in b_attrs:
         out.append("    %s: %s%s" % (n, t, " = %s" % v if v is not None else ""))
-    out += ["", "    %sdef m(%s):" % ("@classmethod\n    " if m_first == "cls" else "", m_txt), "        return 1", "",
+    out += ["", "    %sdef m(%s):" % ({"cls": "@classmethod\n    ", "static": "@staticmethod\n    "}.get(m_first, ""), m_txt), "        return 1", "",
             "    other = 3", "", "", "def g(%s):" % g_txt, '    """g doc"""', "    return None", "", "", "TAIL = 9", ""]
     out_src = "\n".join(out)
     compile(out_src, "<generated output module>", "exec")  # harness self-check (duplicate argument names etc.)
